@@ -24,7 +24,8 @@ RULE = ("trees of recursive scheduling (depth <=3) through a real CatchScheduler
         "(or a negative sleep -> ArgumentOutOfRangeException) at every position with probability ~0.35; handler verdict per exception name; run by "
         "start/advance_to (re-armed with stop() after an escalation); the SAME exception instance raised by several actions with a stateful handler "
         "(verdict per call position); periodic actions through CatchScheduler.schedule_periodic raising at a chosen tick, several jobs on one "
-        "CatchScheduler instance (one failing, one scheduled after the failure, interval()/timer(p,p)). Compared with the Lean model on "
+        "CatchScheduler instance (one failing, one scheduled after the failure, interval()/timer(p,p)); oracle-only: non-raising actions that RETURN the "
+        "disposable of follow-up work (chains), outer handle disposed before / between / after, compared with the same script on the bare scheduler. Compared with the Lean model on "
         "handler-call log, per-call outcomes (which exception escapes), executed-action log and clocks. non-trivial = at least one action raised")
 ASSUMPTIONS = ["single-threaded use; inner scheduler is a virtual-time scheduler (C28/C29 model)",
                "the handler itself does not raise and returns a bool (it may be stateful: the model's verdict is a function of call position and exception)"]
@@ -97,7 +98,56 @@ def gen_shared_exc_case(rng):
             "handler_true": [x for x in ("S1", "S2") if rng.random() < 0.5], "handler_default": False, "handler_seq": seq}
 
 
+def gen_ret_case(rng):
+    """non-raising actions that RETURN the disposable of follow-up work they scheduled (chains of depth 1..3), scheduled through
+    the CatchScheduler, with the caller disposing the outer handle before the action ran / after it ran but before the follow-up is
+    due / after everything ran.  Oracle-only (the Lean model's actions return None): the same script on the bare inner scheduler
+    must behave identically."""
+    kind = rng.choice(["test", "vts", "hist"])
+    unit = 500 if kind == "hist" else 1
+    c0 = unit * rng.choice([0, 0, 5])
+    ops, nid = [], 1
+    roots = []
+    for _ in range(rng.choice([1, 1, 2])):
+        depth = rng.choice([1, 1, 2, 3])
+        t0 = c0 + unit * rng.randrange(1, 6)
+        gaps = [unit * rng.choice([2, 4, 6]) for _ in range(depth)]
+        ids = list(range(nid, nid + depth + 1))
+        nid += depth + 1
+        node = {"id": ids[-1], "steps": [], "raise": None}
+        for j in range(depth - 1, -1, -1):
+            steps = [["sched", "handed", "rel", gaps[j], node]]
+            if rng.random() < 0.3:     # unrelated sibling work that must be unaffected
+                steps.append(["sched", "handed", "rel", unit * rng.randrange(1, 8), {"id": nid, "steps": [], "raise": None}])
+                nid += 1
+            node = {"id": ids[j], "steps": steps, "raise": None, "ret": node["id"] if rng.random() < 0.85 else None}
+        ops.append(["sched", rng.random() < 0.9, "abs", t0, node])
+        roots.append((ids, t0, gaps))
+    # dispose an outer (or intermediate) handle at a chosen moment
+    ids, t0, gaps = rng.choice(roots)
+    times = [t0]
+    for g in gaps:
+        times.append(times[-1] + g)
+    j = rng.randrange(0, len(ids) - 1)           # the handle to dispose: action ids[j]
+    when = rng.choice(["before", "between", "between", "between", "after", "never"])
+    if when == "before":
+        ops.append(["advance_to", max(c0 + 0, times[j] - unit) if times[j] - unit > c0 else c0 + 0])
+        ops.append(["cancel", ids[j]])
+    elif when == "between":
+        ops.append(["advance_to", times[j] + unit])   # ids[j] ran, ids[j+1] (due >= 2 units later) is still pending
+        ops.append(["cancel", ids[j]])
+    elif when == "after":
+        ops.append(["advance_to", times[-1] + unit])
+        ops.append(["cancel", ids[j]])
+    ops = [o for o in ops if not (o[0] == "advance_to" and o[1] <= c0)]
+    ops.append(["start"])
+    return {"op": "vts_script", "sched": kind, "clock": c0, "bump": 1000 if kind == "hist" else 1, "ops": ops,
+            "handler_true": [], "handler_default": False, "returns_disposables": True}
+
+
 def cases(rng, tier):
+    for _ in range(fw.tier_scale(tier, 400, 4000)):
+        yield gen_ret_case(rng)
     for _ in range(fw.tier_scale(tier, 1500, 15000)):
         yield gen_tree_case(rng)
     for _ in range(fw.tier_scale(tier, 400, 4000)):
@@ -112,6 +162,8 @@ def cases(rng, tier):
 
 
 def model_request(case):
+    if case.get("returns_disposables"):
+        return None   # oracle-only: the model's actions return None
     return vc.per_model_request(case) if case["op"] == "per_script" else vc.model_request(case)
 
 
@@ -191,7 +243,9 @@ def oracle(case, out):
         o2 = vc.run_script(plain)
         for f in ("outs", "log", "clock", "enabled", "pending"):
             if o2.get(f) != out[f]:
-                return f"non-raising script differs through the CatchScheduler in {f}: {out[f]} vs {o2.get(f)} on the inner scheduler"
+                return (f"non-raising script differs through the CatchScheduler in {f}: {out[f]} vs {o2.get(f)} on the inner scheduler"
+                        + (" (actions return the disposable of their follow-up work; the outer handle is disposed by the caller)"
+                           if case.get("returns_disposables") else ""))
     return None
 
 
@@ -278,6 +332,7 @@ LEVEL_TEXT = ("Lean: on the model of CatchScheduler over the virtual-time schedu
               "and refused by the handler; (4) for scripts whose actions do not raise, wrapped and unwrapped runs are bisimilar (same outcomes, log, "
               "clocks, queue; handler never called); (5) periodic: a raising tick calls the handler once, True swallows it and the task is never invoked "
               "again, False propagates. Tied to /repo by differential runs on a real CatchScheduler with exceptions at every position.")
-LEVEL_NOTE = ("Assumed: the handler returns a bool and does not raise; single thread. The handler-call log `hlog` is an observation field of the model, "
+LEVEL_NOTE = ("The Lean model's actions return None: that a disposable RETURNED by a wrapped action stays attached to the scheduled item's handle is checked by the oracle "
+              "only (CatchScheduler run vs bare-scheduler run of the same script), not proved. Assumed: the handler returns a bool and does not raise; single thread. The handler-call log `hlog` is an observation field of the model, "
               "compared with the real handler's calls by the correspondence. (1) needs the hypothesis that no action schedules on the closed-over inner "
               "scheduler (then the exception legitimately bypasses the handler; the model and the correspondence cover that case too).")
